@@ -1,4 +1,4 @@
 SPECIFICATION Spec
 CONSTANTS N = 3
           VecArities = {1, 2}
-INVARIANTS InvEquivalence InvExplore InvUnfolding InvBoundedHash
+INVARIANTS InvEquivalence InvExplore InvUnfolding InvBoundedHash InvDeepNotSmall
